@@ -678,7 +678,8 @@ def abort_all_parked():
     n = 0
     with CV:
         for w in list(CLOCK.waiters):
-            if not w.woken:
+            if not w.woken and "-internal" not in getattr(w.thread, "vf_role", ""):
+                # (the library's process-wide helper executor behind f_timeout outlives cases)
                 w.abort = True
                 w.woken = True
                 n += 1
